@@ -273,7 +273,8 @@ decode_scene_upto (const scenario_t *sc, scene_t *s, int upto, pixman_image_t *i
 	    int bpp;
 	    size_t n, k;
 	    s->fmt = sfmts[sim_mod (A (0), 4)];
-	    s->w = (int)sim_clamp (A (1), 1, 64); s->h = (int)sim_clamp (A (2), 1, 64);
+	    s->w = (int)sim_clamp (A (1), 1, 32767); s->h = (int)sim_clamp (A (2), 1, 64);
+	    if (s->w > 64 && s->h > 2) s->h = 2;            /* very wide sources are one or two rows high */
 	    bpp = PIXMAN_FORMAT_BPP (s->fmt);
 	    s->stride = ((s->w * bpp + 31) / 32) * 4;
 	    n = (size_t)s->stride * s->h;
@@ -453,6 +454,32 @@ generate (uint64_t seed, int tier, const char *property, scenario_t *sc)
     int w, h, i, n_req, tclass, filter;
     rng_seed (&r, seed, 8);
     sc_set (sc, "chains", 0xffffffffll);
+    if (rng_chance (&r, 1, 12))
+    {
+	/* a very wide source, strongly minified, the first samples far to the left of it: the
+	 * distances the scanline set-up works with approach the end of the 16.16 range while
+	 * every sample position stays inside it */
+	int64_t unit, start;
+	w = (int)rng_range (&r, 6000, 32000); h = (int)rng_range (&r, 1, 2);
+	start = -rng_range (&r, 0, 32000 - w < 14000 ? 32000 - w + 600 : 14000);
+	/* pixman wants the request grown by one destination pixel on each side to map into the
+	 * 16.16 range too (analyze_extent in pixman.c), or it drops the request: stay inside that */
+	unit = rng_range (&r, 100, (32700 - start) / (DW + 2));
+	m[0] = unit * 65536 + (rng_chance (&r, 1, 2) ? 0 : rng_range (&r, 0, 65535));
+	m[2] = start * 65536 + (rng_chance (&r, 1, 2) ? 32768 : rng_range (&r, 0, 65535));
+	m[4] = rng_chance (&r, 1, 2) ? 65536 : rng_range (&r, 30000, 2 * 65536);
+	m[5] = rng_range (&r, -2, 2) * 32768;
+	if (((DW + 2) * m[0] + m[2]) / 65536 > 32760) m[0] = (32760ll * 65536 - m[2]) / (DW + 2);
+	sc_add (sc, S_SRC, 4, (int64_t)rng_n (&r, 4), (int64_t)w, (int64_t)h, (int64_t)(rng_u64 (&r) >> 20));
+	sc_add (sc, S_TRANSFORM, 9, m[0], m[1], m[2], m[3], m[4], m[5], m[6], m[7], m[8]);
+	sc_add (sc, S_FILTER, 5, (int64_t)(rng_chance (&r, 1, 2) ? PIXMAN_FILTER_NEAREST : PIXMAN_FILTER_BILINEAR), (int64_t)1, (int64_t)1, (int64_t)0, (int64_t)0);
+	sc_add (sc, S_REPEAT, 1, (int64_t)rng_n (&r, 4));
+	n_req = (int)rng_range (&r, 1, 3);
+	for (i = 0; i < n_req; i++)
+	    sc_add (sc, S_REQUEST, 6, (int64_t)0, (int64_t)rng_range (&r, 0, 1), (int64_t)0, (int64_t)rng_range (&r, 0, 3),
+		    (int64_t)(rng_chance (&r, 2, 3) ? DW : rng_range (&r, 1, DW)), (int64_t)rng_range (&r, 1, 3));
+	return;
+    }
     w = rng_chance (&r, 1, 5) ? 1 : (int)rng_range (&r, 1, 64);
     h = rng_chance (&r, 1, 5) ? 1 : (int)rng_range (&r, 1, 64);
     sc_add (sc, S_SRC, 4, (int64_t)rng_n (&r, 4), (int64_t)w, (int64_t)h, (int64_t)(rng_u64 (&r) >> 20));
